@@ -132,6 +132,8 @@ class C02(SessionCheck):
         want11 = (case.get('info') or {}).get('want11')
         w = bytes.fromhex(last['wire'])
         # 1. the wire must decode: hello in 1.0, then frames in the negotiated framing, the last possibly incomplete
+        if w[:2] == b'\n#':
+            return ('C02:hello-not-in-eom-framing', 'the first frame (the client <hello>) was written in chunked framing')
         if hello is None:
             return None
         if status.startswith('bad'):
